@@ -177,6 +177,18 @@ def run_programs(gw, rng, big=False):
     T.append(["status", type(st.numchannels).__name__, type(st.numexecuting).__name__, st.execmodel == gw.spec.execmodel])
     ri = gw._rinfo()
     T.append(["rinfo", sorted(k for k in vars(ri))])
+    # ... and what it says is what the worker says about itself; it is cached until an update is asked for
+    obs = gw.remote_exec("import os, sys\nchannel.send([sys.executable, list(sys.version_info[:5]), sys.platform, os.getcwd(), os.getpid()])").receive(20)
+    same = [ri.executable == obs[0], list(ri.version_info) == obs[1], ri.platform == obs[2], ri.cwd == obs[3], ri.pid == obs[4]]
+    T.append(["rinfo-truthful", ["yes" if x else "no" for x in same]])
+    moved = gw.remote_exec("import os\nold = os.getcwd()\nos.chdir(os.path.dirname(old) or '/')\nchannel.send([old, os.getcwd()])").receive(20)
+    cached, fresh = gw._rinfo().cwd, gw._rinfo(update=True).cwd
+    chb = gw.remote_exec("import os\nos.chdir(channel.receive())")
+    chb.send(moved[0])
+    chb.waitclose(20)
+    T.append(["rinfo-cache", "cached" if cached == moved[0] else "not cached", "updated" if fresh == moved[1] else "stale after update"])
+    back = gw._rinfo(update=True).cwd
+    T.append(["rinfo-back", "restored" if back == moved[0] else "elsewhere"])
     # 9. two sender threads at once on two channels of one remote body (valid under every execmodel), per-channel order preserved
     import threading
 
